@@ -116,7 +116,48 @@ theorem endsRet_never_normal (M : Machine) (F : FnTable) (obj : HostVal) :
   | [], base, st, r, _, h, he => by
     simp only [compileStmts, pure, Except.pure] at h; cases h; simp [endsRet] at he
   | s :: rest, base, st, r, hs, h, he => by
-    simp only [pureSs, Bool.and_eq_true] at hs
+    by_cases hpair : IsPair s rest
+    · -- `e op;` followed by the rest: the pair's code ends in OpInc / OpDec, so the return is further on
+      obtain ⟨e, n, op, rest', rfl, rfl⟩ := hpair
+      simp only [pureSs, Bool.and_eq_true] at hs
+      simp only [compileStmts, compileStmt, bind_ok_eq, pure, Except.pure] at h
+      obtain ⟨⟨c, st1⟩, h1, ⟨cs, st2⟩, ⟨⟨ci, sti⟩, hi, ⟨cr, str⟩, hr, hcs⟩, h3⟩ := h
+      cases h3; cases hcs
+      have hci : ∃ i, ci = [i] ∧ i.op ≠ Op.return := by
+        simp only [compileExpr] at hi
+        split at hi
+        · simp only [pure, Except.pure] at hi; cases hi; exact ⟨_, rfl, by simp [withConst_op]⟩
+        · split at hi
+          · simp only [pure, Except.pure] at hi; cases hi; exact ⟨_, rfl, by simp [withConst_op]⟩
+          · cases hi
+      obtain ⟨i, rfl, hiop⟩ := hci
+      intro depth f env out e' o'
+      cases f with
+      | zero => simp [execSs]
+      | succ f =>
+        simp only [execSs]
+        have hcr : cr ≠ [] := by
+          intro hnil
+          subst hnil
+          have : endsRet (c ++ ([i] ++ [])) = (i.op == Op.return) := by
+            rw [List.append_nil, endsRet_snoc]
+          rw [this] at he
+          simp at he
+          exact hiop he
+        have he2 : endsRet cr = true := by
+          have : c ++ ([i] ++ cr) = (c ++ [i]) ++ cr := by simp
+          rw [this, endsRet_append_ne _ _ hcr] at he; exact he
+        have ih := endsRet_never_normal M F obj rest' _ _ _ hs.2 hr he2
+        cases evalE M obj env e out with
+        | mk res o =>
+          cases res with
+          | error x => simp only [failE]; split <;> simp
+          | ok v =>
+            simp only []
+            cases incDecEnv obj env n (op == ['+', '+']) with
+            | error x => simp
+            | ok env2 => exact ih depth f env2 o e' o'
+    rw [pureSs_other s rest hpair, Bool.and_eq_true] at hs
     simp only [compileStmts, bind_ok_eq, pure, Except.pure] at h
     obtain ⟨⟨c, st1⟩, h1, ⟨cs, st2⟩, h2, h3⟩ := h
     cases h3
@@ -124,7 +165,7 @@ theorem endsRet_never_normal (M : Machine) (F : FnTable) (obj : HostVal) :
     cases f with
     | zero => simp [execSs]
     | succ f =>
-      simp only [execSs]
+      rw [execSs_other M F obj depth f s rest env out hpair]
       by_cases hcs : cs = []
       · -- everything after `s` is function definitions: `s` itself is the `return`
         subst hcs
